@@ -1,6 +1,7 @@
 """C07 - PEL selection follows the class / severity / --only rules (E1: complete product on the real considerPEL)."""
 import itertools
 import json
+from mc import strictjson
 import os
 import tempfile
 
@@ -222,7 +223,7 @@ def _cli_case(case, pt, d=None, cells=None):
     r = clidrv.run_main(_argv(d, sw, sl, '-n'))
     core.disarm()
     try:
-        got = json.loads(r.stdout)['Number of PELs found']
+        got = strictjson.loads(r.stdout)['Number of PELs found']
     except Exception as e:
         got = 'unreadable (%s)' % e
     if got != want:
